@@ -14,3 +14,4 @@ Theorem c06_running_refuses_cancel_and_completes : f_cancel Running = (Running, 
 Proof. exact running_refuses_cancel. Qed.
 
 Print Assumptions c06_cancelled_delegate_never_runs.
+Print Assumptions c06_running_refuses_cancel_and_completes.
